@@ -2,11 +2,12 @@
    C01: "Point reads return the latest write, whatever the tree did in between". *)
 From Coq Require Import NArith List.
 From Blue Require Import Gen.Const_Lsm Lsm.Model Lsm.LoadProofs Lsm.Ordered Lsm.CompactProofs Lsm.GcProofs Lsm.WfProofs Lsm.History Lsm.RecoverImpossible
-  Lsm.ModelConcurrent Lsm.ConcStable Lsm.ConcInv Lsm.ConcurrentProofs.
+  Lsm.ModelConcurrent Lsm.ConcStable Lsm.ConcInv Lsm.ConcurrentProofs Lsm.OutcomeProofs.
 Import ListNotations.
 Open Scope N_scope.
 
-(* For EVERY history of writes (put / del / batch), ingests of external ssts whose entries are
+(* For EVERY history of writes (put / del / batch - ANY batch: a key named twice keeps its last
+   write, as KeyValueStore::write's dedup does), ingests of external ssts whose entries are
    newer than everything the (flushed) store holds, flushes, admissible compactions (trivial moves
    and merges, however the outputs are cut into files), garbage collections at the last level
    (whatever is dropped, as long as each key's newest input version survives or is a tombstone
@@ -65,20 +66,25 @@ Theorem C01_invariant_reachable : forall n ops, all_accepted (init_at n) ops = t
 Proof. exact run_inv. Qed.
 
 (* Known finding K2, root cause (why reopen is an INPUT of the history theorem and not a function):
-   recovery sees only the metadata of the files.  There are two stores whose files have pairwise
-   identical metadata (id, first key, last key, smallest and biggest timestamp, size), both with a
-   well-formed Ordered arrangement, such that NO arrangement of the files into levels is Ordered for
-   both contents.  Hence recover.rs - or any replacement working from the same metadata - returns
-   stale point reads on at least one of them. *)
+   recovery orders files by what construct_adj_list reads of them: key range and timestamp range
+   (the id - a content hash - names a file and says nothing about order).  There are two stores,
+   BOTH REACHABLE from the empty store by accepted histories (k2_ops, k2_ops': flushes, trivial
+   moves and one merge each), holding the files (A, B) and (A', B), where A and A' have identical
+   first key, last key, smallest and biggest timestamp and size (and different ids), each store
+   well formed and Ordered, such that NO arrangement of two files into levels is Ordered for both
+   contents.  Hence recover.rs - or any replacement working from the same metadata - returns stale
+   point reads on at least one of them. *)
 Theorem C01_recovery_from_metadata_refuted :
-  (meta fA = meta fA' /\ meta fB = meta fB') /\
+  (meta fA = meta fA' /\ meta fB = meta fB' /\ fid fA <> fid fA') /\
+  (all_accepted (init_at 0) k2_ops = true /\ ver (run (init_at 0) k2_ops) = vAB /\
+   all_accepted (init_at 0) k2_ops' = true /\ ver (run (init_at 0) k2_ops') = vBA') /\
   (wf_versionb vAB = true /\ orderedb (mkS [] vAB 9) = true /\
    wf_versionb vBA' = true /\ orderedb (mkS [] vBA' 9) = true) /\
   (forall v n n', only_AB (flat v) -> In fA (flat v) -> In fB (flat v) ->
      ~ (Ordered (mkS [] v n) /\ Ordered (mkS [] (swap_contents v) n'))).
 Proof.
-  exact (conj (conj (proj1 same_metadata) (proj1 (proj2 same_metadata)))
-              (conj each_has_a_correct_arrangement no_arrangement_fits_both)).
+  exact (conj (conj (proj1 same_metadata) (conj (proj1 (proj2 same_metadata)) (proj1 (proj2 (proj2 same_metadata)))))
+              (conj both_reachable (conj each_has_a_correct_arrangement no_arrangement_fits_both))).
 Qed.
 
 (* ---- non-vacuity: a concrete history with two flushes, a merging compaction whose output
@@ -102,6 +108,67 @@ Proof. vm_compute. reflexivity. Qed.
 
 Example ex_reads : map (get (run (init_at 2) ex_ops)) [[1]; [2]; [3]; [4]] = [None; None; Some [30]; None].
 Proof. vm_compute. reflexivity. Qed.
+
+(* ---- a batch that names keys twice: the last write to each key counts (in the store: Model.write
+   keeps it; in the specification: spec_step takes the last match) ---- *)
+Definition ex_dup_ops : list op :=
+  [ OWrite [([1], Some [1]); ([2], Some [5]); ([1], Some [2]); ([3], Some [7]); ([3], None)];
+    OFlush 100 50;
+    OWrite [([2], None); ([2], Some [6])] ].
+Example ex_dup_batch :
+  all_accepted (init_at 0) ex_dup_ops = true /\
+  map (get (run (init_at 0) ex_dup_ops)) [[1]; [2]; [3]] = [Some [2]; Some [6]; None] /\
+  map (spec ex_dup_ops) [[1]; [2]; [3]] = [Some [2]; Some [6]; None] /\
+  map fents (hd [] (ver (run (init_at 0) ex_dup_ops))) =
+    [[mkE [1] 1 (Some [2]); mkE [2] 1 (Some [5]); mkE [3] 1 None]].
+Proof. vm_compute. repeat split; reflexivity. Qed.
+
+(* ---- accepted ingests of external ssts and a garbage collection into the last level that drops
+   a tombstone together with the value it shadows, and an overwritten value ---- *)
+Definition ex_gc_ops : list op :=
+  [ OIngest (mkF 1 [mkE [1] 5 (Some [10]); mkE [2] 5 (Some [20]); mkE [3] 4 (Some [30])] 60);
+    OIngest (mkF 2 [mkE [1] 7 None; mkE [3] 8 (Some [31])] 40);
+    OGc (mkC 0 15 [1] [3] [2; 1]) [mkF 3 [mkE [2] 5 (Some [20]); mkE [3] 8 (Some [31])] 50];
+    OWrite [([2], None)] ].
+Example ex_gc_ingest :
+  all_accepted (init_at 0) ex_gc_ops = true /\
+  map (get (run (init_at 0) ex_gc_ops)) [[1]; [2]; [3]] = [None; None; Some [31]] /\
+  map (spec ex_gc_ops) [[1]; [2]; [3]] = [None; None; Some [31]] /\
+  map fid (nth 15 (ver (run (init_at 0) ex_gc_ops)) []) = [3].
+Proof. vm_compute. repeat split; reflexivity. Qed.
+
+(* L0 files that tie on biggest_timestamp are consulted as the Rust does (stable sort_by_key, then
+   reversed: the LATER of two tying files first) *)
+Example ex_l0_ties :
+  map fid (l0_order [mkF 1 [mkE [1] 5 None] 1; mkF 2 [mkE [2] 5 None] 1; mkF 3 [mkE [3] 4 None] 1]) = [2; 1; 3].
+Proof. vm_compute. reflexivity. Qed.
+
+(* ---- no fault-free operation panics or returns an error.  step_outcome is what the real call
+   returns on model-visible conditions (History.v: index out of range and `upper_bound -
+   lower_bound` in apply_compaction_inner panic; an empty batch and a duplicate setsum on ingest /
+   flush are documented Err returns).  On an accepted history whose calls keep the two documented
+   preconditions (no empty batch; a file entering the tree has a new id) every step is Done with
+   exactly the state `step` computes; and acceptance alone excludes every panic - also for a
+   compaction that a thread applies to a later version than it was selected on. ---- *)
+Theorem C01_no_fault_free_error : forall ops s, all_accepted s ops = true -> all_calls_ok s ops = true ->
+  run_outcome s ops = Done (run s ops).
+Proof. exact no_fault_free_error. Qed.
+
+Theorem C01_accepted_never_panics : forall ops s, all_accepted s ops = true -> run_outcome s ops <> Panic.
+Proof. exact accepted_never_panics. Qed.
+
+Theorem C01_concurrent_apply_never_panics : forall n ops, caccepted (cinit_at n) ops = true ->
+  forall v c E, In (v, (c, E)) (applies (cinit_at n) ops) ->
+  forall m q outs, apply_outcome (mkS m v q) c outs = Done (compact (mkS m v q) c outs).
+Proof. exact concurrent_apply_never_panics. Qed.
+
+Example ex_outcomes :
+  step_outcome (init_at 0) (OCompact (mkC 0 16 [] [] []) []) = Panic /\
+  step_outcome (mkS [] [[]; [mkF 1 [mkE [5] 1 None] 1]] 1) (OCompact (mkC 0 1 [9] [1] []) []) = Panic /\
+  step_outcome (init_at 0) (OWrite []) = Fail /\
+  step_outcome (mkS [] [[mkF 1 [mkE [5] 1 None] 1]] 1) (OIngest (mkF 1 [mkE [6] 2 None] 1)) = Fail /\
+  all_calls_ok (init_at 2) ex_ops = true /\ all_calls_ok (init_at 0) ex_gc_ops = true.
+Proof. vm_compute. repeat split; reflexivity. Qed.
 
 (* ---------------- several compactions ongoing at once ---------------- *)
 
